@@ -368,7 +368,12 @@ func genC08Args(t *rapid.T, s vScenario) ([]string, map[string]string) {
 		if rapid.IntRange(0, 3).Draw(t, "oldshorten") == 0 {
 			c = append(c, "--use-old-reg-reporter", "--shorten")
 		}
-		switch rapid.IntRange(0, 5).Draw(t, "regmode") {
+		switch rapid.IntRange(0, 6).Draw(t, "regmode") {
+		case 6: // the element written the way a file would write it: quoted, with the colon, padded
+			c = append(c, "-s", []string{x + ":", "\"" + x + "\"", " " + x, x + " ", "\"" + x + "\":", "\t" + x, x + "-"}[rapid.IntRange(0, 6).Draw(t, "decorated")])
+			if rapid.Bool().Draw(t, "decoratedg") {
+				c = append(c, "-g")
+			}
 		case 0:
 			c = append(c, "-s", x)
 		case 1:
@@ -389,7 +394,7 @@ func genC08Args(t *rapid.T, s vScenario) ([]string, map[string]string) {
 			}
 		}
 		if rapid.Bool().Draw(t, "bals") {
-			c = append(c, "-s", x)
+			c = append(c, "-s", []string{x, x, x, x + ":", "\"" + x + "\"", " " + x}[rapid.IntRange(0, 5).Draw(t, "balsv")])
 		}
 	case 4:
 		c = append(c, "lint")
@@ -405,7 +410,7 @@ func genC08Args(t *rapid.T, s vScenario) ([]string, map[string]string) {
 			c = append(c, "--desc")
 		}
 		if rapid.IntRange(0, 9).Draw(t, "noarg") != 0 {
-			c = append(c, x)
+			c = append(c, []string{x, x, x, x + ":", "\"" + x + "\"", " " + x}[rapid.IntRange(0, 5).Draw(t, "etv")])
 		}
 	case 6:
 		c = append(c, "report", "unresolved")
@@ -478,7 +483,59 @@ func genC08(t *rapid.T) c08Case {
 	return c
 }
 
-func init() { vRegister("C08", "c08.random", checkC08) }
+
+// ---------------------------------------------------------------------------
+// very long chains of recipes (no cycle): the depth limit must answer, not the stack
+
+type c08DeepCase struct {
+	Links int `json:"links"`
+	Cmd   int `json:"cmd"`
+}
+
+var c08DeepCmds = [][]string{{"csv", "database-resolved"}, {"reg", "--no-color"}, {"report", "element-total", "x"}, {"bal", "-s", "x"}}
+
+func checkC08Deep(c c08DeepCase, ctx *vCtx) *vFailure {
+	var sb strings.Builder
+	for i := 0; i < c.Links; i++ {
+		fmt.Fprintf(&sb, "link%d:\n  link%d: 1\n", i, i+1)
+	}
+	fmt.Fprintf(&sb, "link%d:\n  x: 1\n", c.Links)
+	bp := vWriteFile("c08-deep-book.yaml", sb.String())
+	lp := vWriteFile("c08-deep-log.yaml", "2021/01/01:\n  link0: 1\n")
+	cmd := c08DeepCmds[c.Cmd%len(c08DeepCmds)]
+	ctx.NonTrivial(true)
+	ctx.Labelf("links=%d", c.Links)
+	r := vRunApp(vInvocation{Args: append([]string{"--today", vToday, "-d", bp, "-l", lp}, cmd...)})
+	ctx.Run(1)
+	if r.Panic != "" {
+		return vFailf("%v on a chain of %d recipes panics: %s", cmd, c.Links, vTrunc(r.Panic, 1200))
+	}
+	if !r.Failed || !vIsDepthError(r.Err) {
+		return vFailf("%v on a chain of %d recipes under the default depth limit: failed=%v, error %q (expected the maximum-depth error)", cmd, c.Links, r.Failed, vTrunc(r.Err, 300))
+	}
+	return nil
+}
+
+func TestVerifC08Deep(t *testing.T) {
+	links := []int{20000, 200000}
+	if vThorough() {
+		links = append(links, 1000000)
+	}
+	var space []c08DeepCase
+	for _, l := range links {
+		for ci := range c08DeepCmds {
+			space = append(space, c08DeepCase{Links: l, Cmd: ci})
+		}
+	}
+	vEnum(t, "C08", "c08.deep",
+		"acyclic chains of 20 000 and 200 000 (thorough: 1 000 000) recipes under the default depth limit, four resolving commands: the answer is the maximum-depth error; a crash of the process (stack exhaustion cannot be recovered) is attributed to the journaled case by the driver",
+		fmt.Sprintf("%d (length, command) combinations", len(space)), len(space), func(i int) c08DeepCase { return space[i] }, checkC08Deep)
+}
+
+func init() {
+	vRegister("C08", "c08.random", checkC08)
+	vRegister("C08", "c08.deep", checkC08Deep)
+}
 
 func TestVerifC08Random(t *testing.T) {
 	vRapid(t, "C08", "c08.random",
